@@ -10,6 +10,10 @@
 //! A second family (see `limits`) puts objects that sit at, just below and beyond the parser's nesting limits into small
 //! and long files and varies the history of the threads that parse them: what a worker parsed before - in this load or
 //! in earlier loads on the same pool - must not change what becomes of an object.
+//! A third family (see `streams`) varies what a stream drags through the loader: its data (not encoded / FlateDecode,
+//! healthy or damaged in three ways, decoded length on a geometric scale) and the way its /Length is stated (direct, an
+//! object of its own, one object shared by several streams), for object streams and ordinary streams, in every sequence
+//! of 1 and 2 streams and in long files; what becomes of a stream must not depend on its neighbours or on earlier loads.
 #![allow(dead_code)]
 use crate::common::*;
 use lopdf::{Document, Object};
@@ -182,16 +186,32 @@ fn first_diff(a: &str, b: &str) -> String {
 pub fn digests(thorough: bool) -> Value {
     set_order(usize::MAX);
     let mut m = serde_json::Map::new();
-    // LOPDF_VERIF_C08_PART = "specs" / "limits" asks for one of the two families only (the caller runs the two concurrently)
+    // LOPDF_VERIF_C08_PART = "specs" / "limits" / "streams" asks for one of the three families only (the caller runs them concurrently)
     let part = std::env::var("LOPDF_VERIF_C08_PART").unwrap_or_default();
-    if part != "limits" { for s in specs(thorough) { m.insert(spec_name(&s), json!(load(&build_file(&s)).unwrap_or_else(|e| e))); } }
-    if part == "specs" { return Value::Object(m); }
-    // the second family, judged by this build on its own; the caller compares the signatures with its expectations
-    let mut rep = Report::new("second family on this build", false);
-    let out = limits(thorough, &[1], "a long-lived plain thread", 3, &mut rep);
-    m.insert("limit-alphabet".into(), json!(out.alphabet));
-    for (name, (_, loaded)) in out.files { m.insert(format!("L:{}", name), json!(loaded)); }
-    m.insert("limit-failures".into(), Value::Array(rep.failures.iter().map(|f| json!({"obligation": f.obligation, "detail": f.detail, "input": f.input, "observed": f.observed})).collect()));
+    let wanted = |p: &str| part.is_empty() || part == p;
+    // LOPDF_VERIF_C08_SHOW = the name of a file of the third family: its document as loaded on a fresh thread, nothing else
+    if let Ok(name) = std::env::var("LOPDF_VERIF_C08_SHOW") {
+        let f = stfile_from(&name).unwrap_or_default();
+        return json!({"file": name, "document": load_fresh3(&build_stream_file(&whole(&f))).unwrap_or_else(|e| e)});
+    }
+    if wanted("specs") { for s in specs(thorough) { m.insert(spec_name(&s), json!(load(&build_file(&s)).unwrap_or_else(|e| e))); } }
+    let failures = |rep: &Report| Value::Array(rep.failures.iter().map(|f| json!({"obligation": f.obligation, "detail": f.detail, "input": f.input, "observed": f.observed})).collect());
+    if wanted("limits") {
+        // the second family, judged by this build on its own; the caller compares the signatures with its expectations
+        let mut rep = Report::new("second family on this build", false);
+        let out = limits(thorough, &[1], "a long-lived plain thread", 3, &mut rep);
+        m.insert("limit-alphabet".into(), json!(out.alphabet));
+        for (name, (_, loaded)) in out.files { m.insert(format!("L:{}", name), json!(loaded)); }
+        m.insert("limit-failures".into(), failures(&rep));
+    }
+    if wanted("streams") {
+        // the third family, likewise
+        let mut rep = Report::new("third family on this build", false);
+        let out = streams(thorough, &[1], "a long-lived plain thread", 3, None, &mut rep);
+        m.insert("stream-alphabet".into(), json!(out.alphabet));
+        for (name, (_, loaded)) in out.files { m.insert(format!("S:{}", name), json!(loaded)); }
+        m.insert("stream-failures".into(), failures(&rep));
+    }
     Value::Object(m)
 }
 
@@ -637,7 +657,7 @@ fn replay_limit(v: &Value) -> Result<(), String> {
     let verdict = |rep: &Report| match rep.failures.iter().find(|x| x.obligation == obligation && x.input["limit"] == v["limit"] && x.input["at"] == v["at"]).or(rep.failures.iter().find(|x| x.obligation == obligation)).or(rep.failures.first()) { None => Ok(()), Some(x) => Err(format!("{}: {}", x.obligation, x.detail)) };
     set_order(usize::MAX);
     if v["build"].as_str() == Some("sequential") {
-        let seq = seq_digests(thorough)?;
+        let seq = seq_digests_part(thorough, "limits")?;
         check_seq_failures_only(&seq, &mut rep);
         return verdict(&rep);
     }
@@ -666,14 +686,15 @@ fn replay_limit(v: &Value) -> Result<(), String> {
         return verdict(&rep);
     }
     // a load on a long-lived pool, or the comparison with the sequential build: the whole family again, same order
-    let seq = seq_digests(thorough)?;
+    let seq = seq_digests_part(thorough, "limits")?;
     let mut rep = Report::new("replay", false);
     check_limits(thorough, &seq, if thorough { 25 } else { 3 }, &mut rep);
     verdict(&rep)
 }
 
-fn check_seq_failures_only(seq: &Value, rep: &mut Report) {
-    for f in seq.get("limit-failures").and_then(|x| x.as_array()).cloned().unwrap_or_default() {
+fn check_seq_failures_only(seq: &Value, rep: &mut Report) { check_seq_failures(seq, "limit-failures", rep) }
+fn check_seq_failures(seq: &Value, key: &str, rep: &mut Report) {
+    for f in seq.get(key).and_then(|x| x.as_array()).cloned().unwrap_or_default() {
         let ob = format!("sequential-build:{}", f["obligation"].as_str().unwrap_or("?"));
         let mut input = f["input"].clone(); input["build"] = json!("sequential"); input["obligation"] = json!(ob);
         let detail = f["detail"].as_str().unwrap_or(""); let detail = match detail.strip_prefix('[') { Some(rest) => format!("[sequential build; {}", rest), None => format!("[sequential build] {}", detail) };
@@ -681,10 +702,456 @@ fn check_seq_failures_only(seq: &Value, rep: &mut Report) {
     }
 }
 
+// ---------------------------------------------------------------------------------------------------------------------
+// Third family: STREAM DATA (filter, health, size) x HOW THE LENGTH IS STATED x neighbours in the file x history.
+//
+// "The same bytes always produce the same document" quantifies over all files, and "regardless of how the work is split"
+// means that what becomes of one stream depends on that stream (and on the objects it refers to) alone - not on which
+// other streams the same worker has decoded or resolved before, in this load or in an earlier one. A stream drags two
+// things through the loader that an ordinary object does not: its DATA is decoded (object streams are inflated while
+// loading, through bounded buffers, so that how far a decoder got when it gives up depends on the size of the data), and
+// its LENGTH may have to be fetched from another object, which several streams may have in common. So:
+//  * stream alphabet T: {object stream with 3 members, ordinary stream} x data {not encoded, FlateDecode healthy,
+//    FlateDecode with a wrong Adler-32 (error after the last byte), FlateDecode with a broken block header at 10/16 of
+//    the data, FlateDecode cut off at 10/16} x decoded length 2^s bytes, s on a geometric scale from "one read" to "many
+//    buffers" (s = 7, 16; thorough 7, 10, 13, 16, 19) x /Length {direct, a reference to an integer object of its own, a reference to the one integer object of
+//    the file that holds this number (shared by every stream of the same encoded length that says so)};
+//    the zlib data is put together by hand from 16 stored blocks, so that the encoded length follows from the decoded one;
+//  * files: every sequence of 1 and 2 streams of T (thorough: and every sequence of 3 of its 128-byte streams), and long
+//    files of 64 streams drawn from T for real work splitting; stream j owns the object numbers 100+10j .. 109+10j;
+//  * oracle (independent of the loader): every object of stream j - the stream, its members, its length object - is in
+//    every load exactly what it is when the other streams are left out of the file and the thread is fresh; a stream
+//    that is not decoded while loading has the bytes that were written, and the members of a healthy object stream are
+//    the objects that were written; catalog, page tree root, shared length objects, trailer and maximum id are constant.
+//    The sequential build must agree.
+//  * loads: every file twice on one fresh thread; long-lived pools of 1,2,3,4,8,16 threads and the global pool load
+//    every file of one stream and the long ones (thorough: and every file of 2 streams) in turn and then walk over the
+//    single-stream files so that every ordered pair occurs back to back; long files on fresh pools of every size,
+//    repeatedly.
+
+#[derive(Clone, Copy, Debug, PartialEq, Eq, Hash, PartialOrd, Ord)]
+pub enum Enc { Plain, Flate, BadCheck, BadBlock, Cut }
+const ENCS: [Enc; 5] = [Enc::Plain, Enc::Flate, Enc::BadCheck, Enc::BadBlock, Enc::Cut];
+#[derive(Clone, Copy, Debug, PartialEq, Eq, Hash, PartialOrd, Ord)]
+pub enum Len { Direct, Own, Shared }
+const LENS: [Len; 3] = [Len::Direct, Len::Own, Len::Shared];
+/// one stream of the file: `size` is the binary logarithm of the length of the decoded data
+#[derive(Clone, Copy, Debug, PartialEq, Eq, Hash, PartialOrd, Ord)]
+pub struct St { pub objstm: bool, pub enc: Enc, pub size: u32, pub len: Len }
+
+/// 128 bytes (one read of any decoder) .. 512 KiB (many buffers of any decoder) in steps of 8x; quick: 128 bytes and 64 KiB
+const SIZES_QUICK: [u32; 2] = [7, 16];
+const SIZES_THOROUGH: [u32; 5] = [7, 10, 13, 16, 19];
+const SIZE_MIN: u32 = 7;
+const SIZE_MAX: u32 = 19;
+/// blocks of stored data in one zlib stream, and the block at which the damage sits
+const BLOCKS: usize = 16;
+const HURT: usize = 10;
+
+fn st_name(s: &St) -> String {
+    format!("{}{}{}{}", if s.objstm { 'O' } else { 'S' }, match s.enc { Enc::Plain => 'p', Enc::Flate => 'f', Enc::BadCheck => 'k', Enc::BadBlock => 'b', Enc::Cut => 't' }, s.size, match s.len { Len::Direct => 'd', Len::Own => 'o', Len::Shared => 's' })
+}
+fn st_from(t: &str) -> Option<St> {
+    let c: Vec<char> = t.chars().collect();
+    if c.len() < 4 { return None; }
+    let objstm = match c[0] { 'O' => true, 'S' => false, _ => return None };
+    let enc = match c[1] { 'p' => Enc::Plain, 'f' => Enc::Flate, 'k' => Enc::BadCheck, 'b' => Enc::BadBlock, 't' => Enc::Cut, _ => return None };
+    let len = match c[c.len() - 1] { 'd' => Len::Direct, 'o' => Len::Own, 's' => Len::Shared, _ => return None };
+    let size: u32 = c[2..c.len() - 1].iter().collect::<String>().parse().ok()?;
+    if !(SIZE_MIN..=SIZE_MAX).contains(&size) { return None; }
+    Some(St { objstm, enc, size, len })
+}
+pub fn stfile_name(f: &[St]) -> String { f.iter().map(st_name).collect::<Vec<_>>().join(",") }
+fn stfile_from(t: &str) -> Option<Vec<St>> { t.split(',').map(st_from).collect() }
+fn st_words(s: &St) -> String {
+    format!("{}, {} bytes of data {}, /Length {}", if s.objstm { "an object stream with 3 members" } else { "an ordinary stream" }, 1u64 << s.size,
+        match s.enc { Enc::Plain => "not encoded", Enc::Flate => "in a healthy zlib stream", Enc::BadCheck => "in a zlib stream with a wrong Adler-32", Enc::BadBlock => "in a zlib stream with a broken block header at 10/16", Enc::Cut => "in a zlib stream cut off at 10/16" },
+        match s.len { Len::Direct => "direct", Len::Own => "in an object of its own", Len::Shared => "in an object shared with other streams" })
+}
+
+fn adler32(d: &[u8]) -> u32 {
+    let (mut a, mut b) = (1u32, 0u32);
+    for c in d.chunks(5552) { for &x in c { a += x as u32; b += a; } a %= 65521; b %= 65521; }
+    (b << 16) | a
+}
+/// RFC 1950 / RFC 1951 by hand: header 78 01, BLOCKS stored blocks, Adler-32; damaged as `enc` says
+fn zlib_stored(d: &[u8], enc: Enc) -> Vec<u8> {
+    let blk = d.len() / BLOCKS;
+    let mut out = vec![0x78u8, 0x01];
+    for (i, c) in d.chunks(blk).enumerate() {
+        let len = c.len() as u16;
+        let hurt = i == HURT;
+        out.push(if i == BLOCKS - 1 { 1 } else { 0 });
+        out.extend_from_slice(&len.to_le_bytes());
+        out.extend_from_slice(&(if hurt && enc == Enc::BadBlock { !len ^ 0x0101 } else { !len }).to_le_bytes());
+        if hurt && enc == Enc::Cut { out.extend_from_slice(&c[..c.len() / 2]); return out; }
+        out.extend_from_slice(c);
+    }
+    let a = adler32(d) ^ if enc == Enc::BadCheck { 0x5a5a5a5a } else { 0 };
+    out.extend_from_slice(&a.to_be_bytes());
+    out
+}
+
+fn st_base(j: usize) -> u32 { 100 + 10 * j as u32 }
+/// the members of the object stream at position j, put together from the library's data types (no parser involved)
+fn st_members(j: usize) -> Vec<Object> {
+    let mut d = lopdf::Dictionary::new(); d.set("M", Object::Integer(1)); d.set("At", Object::Integer(j as i64));
+    vec![Object::Dictionary(d), Object::Array(vec![Object::Integer(j as i64), Object::Name(b"x".to_vec()), Object::string_literal(format!("s{}", j))]), Object::string_literal(format!("last {}", j))]
+}
+/// decoded data of stream j (exactly 2^size bytes, filled up with spaces) and the value of /First
+fn st_decoded(s: &St, j: usize) -> (Vec<u8>, usize) {
+    let n = 1usize << s.size;
+    let (mut data, first) = if s.objstm {
+        let texts = [format!("<< /M 1 /At {} >>", j), format!("[{} /x (s{})]", j, j), format!("(last {})", j)];
+        let mut index = String::new(); let mut body = String::new();
+        for (k, t) in texts.iter().enumerate() { index.push_str(&format!("{} {} ", st_base(j) + 1 + k as u32, body.len())); body.push_str(t); body.push(' '); }
+        (format!("{}{}", index, body).into_bytes(), index.len())
+    } else { (format!("BT /F1 12 Tf (stream {}) Tj ET", j).into_bytes(), 0) };
+    assert!(data.len() <= n);
+    data.resize(n, b' ');
+    (data, first)
+}
+fn st_encoded(s: &St, j: usize) -> (Vec<u8>, usize) { let (d, first) = st_decoded(s, j); (if s.enc == Enc::Plain { d } else { zlib_stored(&d, s.enc) }, first) }
+/// number of the integer object that holds the encoded length of `s` for every stream that shares it: one per
+/// (size, kind of encoded length); the three kinds differ in length for every size, and no two sizes meet
+fn st_shared_id(s: &St) -> u32 { 10 + 3 * (s.size - SIZE_MIN) + match s.enc { Enc::Plain => 0, Enc::Cut => 2, _ => 1 } }
+
+/// Objects 1 catalog, 2 pages, 10.. the shared length objects in use, 100+10j the stream at position j (absent if None),
+/// 101+10j .. 103+10j its members if it is an object stream, 109+10j its own length object (written after the stream);
+/// the cross-reference stream is object 900 whatever the file holds, so trailer and maximum id are constant.
+pub fn build_stream_file(f: &[Option<St>]) -> Vec<u8> {
+    let mut out: Vec<u8> = b"%PDF-1.5\n%\xE2\xE3\xCF\xD3\n".to_vec();
+    let mut ent: BTreeMap<u32, Ent> = BTreeMap::new();
+    ent.insert(0, Ent::Free);
+    let put = |f: &mut Vec<u8>, ent: &mut BTreeMap<u32, Ent>, id: u32, body: &[u8]| {
+        ent.insert(id, Ent::Normal(f.len()));
+        f.extend_from_slice(format!("{} 0 obj\n", id).as_bytes()); f.extend_from_slice(body); f.extend_from_slice(b"\nendobj\n");
+    };
+    put(&mut out, &mut ent, 1, b"<< /Type /Catalog /Pages 2 0 R >>");
+    put(&mut out, &mut ent, 2, b"<< /Type /Pages /Kids [] /Count 0 >>");
+    let mut shared: BTreeMap<u32, usize> = BTreeMap::new();
+    let enc: Vec<Option<(Vec<u8>, usize)>> = f.iter().enumerate().map(|(j, s)| s.as_ref().map(|s| st_encoded(s, j))).collect();
+    for (s, e) in f.iter().zip(&enc) { if let (Some(s), Some((e, _))) = (s, e) { if s.len == Len::Shared { shared.insert(st_shared_id(s), e.len()); } } }
+    for (id, n) in &shared { put(&mut out, &mut ent, *id, format!("{}", n).as_bytes()); }
+    for (j, (s, e)) in f.iter().zip(&enc).enumerate() {
+        let (Some(s), Some((e, first))) = (s, e) else { continue };
+        let base = st_base(j);
+        let length = match s.len { Len::Direct => format!("{}", e.len()), Len::Own => format!("{} 0 R", base + 9), Len::Shared => format!("{} 0 R", st_shared_id(s)) };
+        let filter = if s.enc == Enc::Plain { "" } else { "/Filter /FlateDecode " };
+        let mut o = if s.objstm { format!("<< /Type /ObjStm /N 3 /First {} {}/Length {} >>\nstream\n", first, filter, length) } else { format!("<< {}/Length {} >>\nstream\n", filter, length) }.into_bytes();
+        o.extend_from_slice(e); o.extend_from_slice(b"\nendstream");
+        put(&mut out, &mut ent, base, &o);
+        if s.len == Len::Own { put(&mut out, &mut ent, base + 9, format!("{}", e.len()).as_bytes()); }
+        if s.objstm { for k in 0..3 { ent.insert(base + 1 + k, Ent::Compressed(base, k)); } }
+    }
+    write_xref(&mut out, &mut ent, XREF_ID);
+    out
+}
+fn whole(f: &[St]) -> Vec<Option<St>> { f.iter().map(|s| Some(*s)).collect() }
+
+fn hash_bytes(b: &[u8]) -> u64 {
+    let mut h = 0xcbf29ce484222325u64 ^ b.len() as u64;
+    let mut it = b.chunks_exact(8);
+    for c in &mut it { h = (h ^ u64::from_le_bytes(c.try_into().unwrap())).wrapping_mul(0x100000001b3); h ^= h >> 29; }
+    for &x in it.remainder() { h = (h ^ x as u64).wrapping_mul(0x100000001b3); }
+    h
+}
+fn stream_mark(content: &[u8]) -> String { format!("{} bytes #{:016x}", content.len(), hash_bytes(content)) }
+/// `digest` for files with big streams: one line per object, stream data and long renderings by length and hash
+fn digest3(d: &Document) -> String {
+    let mut s = format!("version={} max_id={} trailer={:?}\n", d.version, d.max_id, d.trailer).replace('\r', "\\r");
+    for (id, o) in &d.objects {
+        let t = match o {
+            Object::Stream(st) => format!("stream{{{:?}|{}|{:?}}}", st.dict, stream_mark(&st.content), st.allows_compression),
+            other => format!("{:?}", other),
+        };
+        let t = if t.len() > 400 { format!("{}... ({} bytes #{:016x})", t.chars().take(80).collect::<String>(), t.len(), hash_bytes(t.as_bytes())) } else { t };
+        s.push_str(&format!("{} {}: {}\n", id.0, id.1, t.replace('\n', "\\n").replace('\r', "\\r")));
+    }
+    s
+}
+fn load3(bytes: &[u8]) -> Result<String, String> {
+    match std::panic::catch_unwind(std::panic::AssertUnwindSafe(|| Document::load_mem(bytes))) {
+        Err(e) => Err(format!("panic: {}", if let Some(s) = e.downcast_ref::<String>() { s.clone() } else if let Some(s) = e.downcast_ref::<&str>() { s.to_string() } else { "?".to_string() })),
+        Ok(Err(e)) => Ok(format!("load error: {}", e)),
+        Ok(Ok(d)) => Ok(digest3(&d)),
+    }
+}
+fn load3_on(pool: &Option<rayon::ThreadPool>, bytes: &[u8]) -> Result<String, String> { match pool { Some(p) => p.install(|| load3(bytes)), None => load3(bytes) } }
+
+fn digest_lines(d: &str) -> (String, BTreeMap<(u32, u32), String>) {
+    let mut lines = d.lines();
+    let head = lines.next().unwrap_or("").to_string();
+    (head, lines.filter_map(split_line).map(|(id, r)| (id, r.to_string())).collect())
+}
+fn st_block(id: (u32, u32), n: usize) -> Option<usize> { if id.1 == 0 && id.0 >= 100 && id.0 < st_base(n) { Some(((id.0 - 100) / 10) as usize) } else { None } }
+fn st_role(id: u32) -> String { match (id - 100) % 10 { 0 => "the stream itself".into(), 9 => "its length object".into(), k => format!("its member {}", k) } }
+fn signature3(d: &str, n: usize) -> String { format!("{:016x}:{} objects of the {} streams", fnv(d), digest_lines(d).1.keys().filter(|id| st_block(**id, n).is_some()).count(), n) }
+
+/// what a stream is when the other streams are left out of the file: the document of that file, loaded on a fresh thread
+pub struct Alone { head: String, lines: BTreeMap<(u32, u32), String> }
+pub struct Refs { map: std::sync::Mutex<std::collections::HashMap<(St, usize), Option<std::sync::Arc<Alone>>>>, thorough: bool }
+
+const OB_WRITTEN: &str = "a-loaded-object-is-the-object-that-was-written";
+const OB_ALONE: &str = "a-stream-loads-the-same-whatever-else-is-in-the-file";
+
+fn stream_input(f: &[St], at: Value, obligation: &str, thorough: bool) -> Value { json!({"streams": stfile_name(f), "at": at, "obligation": obligation, "tier": if thorough { "thorough" } else { "quick" }}) }
+
+impl Refs {
+    fn new(thorough: bool) -> Refs { Refs { map: Default::default(), thorough } }
+    fn get(&self, s: &St, j: usize, rep: &mut Report) -> Option<std::sync::Arc<Alone>> {
+        if let Some(a) = self.map.lock().unwrap().get(&(*s, j)) { return a.clone(); }
+        rep.case(true);
+        let mut f = vec![None; j + 1]; f[j] = Some(*s);
+        let here = format!("{} at position {}", st_name(s), j);
+        let input = json!({"streams": st_name(s), "position": j, "at": "alone", "obligation": OB_WRITTEN, "tier": if self.thorough { "thorough" } else { "quick" }});
+        let a = match load_fresh3(&build_stream_file(&f)) {
+            Err(p) => { let mut i = input.clone(); i["obligation"] = json!("no-panic"); rep.fail("no-panic", format!("[{}] the file with this single stream ({}): {}", here, st_words(s), p), i, p.clone()); None }
+            Ok(d) if !d.starts_with("version=") => { let mut i = input.clone(); i["obligation"] = json!("generated-file-loads"); rep.fail("generated-file-loads", format!("[{}] the file with this single stream ({}) does not load: {}", here, st_words(s), d), i, d.clone()); None }
+            Ok(d) => {
+                let (head, lines) = digest_lines(&d);
+                let base = st_base(j);
+                // what does not depend on the loader's decoders: the bytes of a stream that is not decoded while loading, the members of a healthy object stream
+                if !s.objstm {
+                    let mark = stream_mark(&st_encoded(s, j).0);
+                    let got = lines.get(&(base, 0)).cloned().unwrap_or_else(|| "not in the document".into());
+                    if !(got.starts_with("stream{") && got.contains(&format!("|{}|", mark))) { rep.fail(OB_WRITTEN, format!("[{}] alone in the file ({}) the stream should hold the {} that were written, it is {}", here, st_words(s), mark, got.chars().take(160).collect::<String>()), input.clone(), got.chars().take(200).collect()); }
+                } else if matches!(s.enc, Enc::Plain | Enc::Flate) {
+                    for (k, m) in st_members(j).iter().enumerate() {
+                        let id = base + 1 + k as u32;
+                        let got = lines.get(&(id, 0)).cloned().unwrap_or_else(|| "not in the document".into());
+                        if got != format!("{:?}", m) { rep.fail(OB_WRITTEN, format!("[{}] alone in the file ({}) member {} (object {}) should be {:?}, it is {}", here, st_words(s), k + 1, id, m, got.chars().take(120).collect::<String>()), input.clone(), got.chars().take(200).collect()); }
+                    }
+                }
+                Some(std::sync::Arc::new(Alone { head, lines }))
+            }
+        };
+        self.map.lock().unwrap().insert((*s, j), a.clone());
+        a
+    }
+    /// the digest the file must have: head and every object but the cross-reference stream from the files with one
+    /// stream each; the cross-reference stream (whose data are the offsets) as loaded
+    fn expected(&self, d: &str, f: &[St], rep: &mut Report) -> Option<String> {
+        let mut m: BTreeMap<(u32, u32), String> = BTreeMap::new();
+        let mut head = String::new();
+        for (j, s) in f.iter().enumerate() {
+            let a = self.get(s, j, rep)?;
+            if j == 0 { head = a.head.clone(); }
+            for (id, r) in &a.lines { if id.0 != XREF_ID { m.insert(*id, r.clone()); } }
+        }
+        if let Some(r) = digest_lines(d).1.remove(&(XREF_ID, 0)) { m.insert((XREF_ID, 0), r); }
+        let mut out = head; out.push('\n');
+        for (id, r) in m { out.push_str(&format!("{} {}: {}\n", id.0, id.1, r)); }
+        Some(out)
+    }
+}
+fn load_fresh3(bytes: &[u8]) -> Result<String, String> { on_fresh_thread(|| load3(bytes)) }
+
+/// how a digest differs from the expected one, in terms of the streams of the file
+fn stream_diff(got: &str, want: &str, f: &[St]) -> String { stream_diff_to(got, want, f, "with the other streams left out of the file, on a fresh thread, it") }
+/// `reference`: what `want` is, as the subject of a sentence
+fn stream_diff_to(got: &str, want: &str, f: &[St], reference: &str) -> String {
+    if !got.starts_with("version=") { return got.chars().take(160).collect(); }
+    let ((gh, g), (wh, w)) = (digest_lines(got), digest_lines(want));
+    let fate = |o: Option<&String>| match o { None => "is not in the document".to_string(), Some(r) => format!("is {}", r.chars().take(90).collect::<String>()) };
+    let ids: std::collections::BTreeSet<(u32, u32)> = g.keys().chain(w.keys()).cloned().collect();
+    let differing: Vec<(u32, u32)> = ids.into_iter().filter(|id| g.get(id) != w.get(id)).collect();
+    if let Some(id) = differing.first() {
+        let whose = match st_block(*id, f.len()) { Some(j) => format!(" ({} of stream {} of {}, {}: {})", st_role(id.0), j, f.len(), st_name(&f[j]), st_words(&f[j])), None => String::new() };
+        return format!("object {}{} {}; {} {} ({} objects differ)", id.0, whose, fate(g.get(id)), reference, fate(w.get(id)), differing.len());
+    }
+    if gh != wh { return format!("{:?} vs {:?}", gh, wh); }
+    first_diff(got, want)
+}
+
+const OB_HISTORY3: &str = "a-load-does-not-depend-on-earlier-loads-on-the-same-pool";
+const WHAT3_FRESH: &str = "one fresh thread loads the file: not every stream fares as it does with the others left out";
+const WHAT3_TWICE: &str = "the same fresh thread loads the file a second time and gets another document than the first time";
+const WHAT3_WALK: &str = "a pool that has loaded other files of the family before loads this one differently";
+const WHAT3_POOLS: &str = "a fresh pool of several threads loads the long file of streams differently";
+
+fn short3(name: &str) -> String { if name.len() > 60 { format!("{}... ({} streams)", &name[..60], name.split(',').count()) } else { name.to_string() } }
+
+fn judge3(rep: &mut Report, obligation: &str, f: &[St], got: Result<String, String>, want: &str, what: &str, at: Value, thorough: bool) -> bool {
+    rep.case(true);
+    match got {
+        Err(p) => { rep.fail("no-panic", format!("[{}] {}: {}", short3(&stfile_name(f)), what, p), stream_input(f, at, "no-panic", thorough), p.clone()); false }
+        Ok(d) if d == want => true,
+        Ok(d) => { let diff = if what == WHAT3_TWICE { stream_diff_to(&d, want, f, "the first time it") } else { stream_diff(&d, want, f) }; rep.fail(obligation, format!("[{}] {}: {}", short3(&stfile_name(f)), what, diff), stream_input(f, at, obligation, thorough), diff.clone()); false }
+    }
+}
+
+pub fn st_alphabet(sizes: &[u32]) -> Vec<St> {
+    let mut v = vec![];
+    for objstm in [true, false] { for enc in ENCS { for size in sizes { for len in LENS { v.push(St { objstm, enc, size: *size, len }); } } } }
+    v
+}
+fn st_files(thorough: bool) -> (Vec<St>, Vec<Vec<St>>) {
+    let o = st_alphabet(if thorough { &SIZES_THOROUGH[..] } else { &SIZES_QUICK[..] });
+    let small: Vec<St> = o.iter().filter(|s| s.size == SIZE_MIN).cloned().collect();
+    let mut v: Vec<Vec<St>> = o.iter().map(|s| vec![*s]).collect();
+    for a in &o { for b in &o { v.push(vec![*a, *b]); } }
+    if thorough { for a in &small { for b in &small { for c in &small { v.push(vec![*a, *b, *c]); } } } }
+    // long files: drawn from the whole alphabet, and from its streams of the smallest size (more streams per unit of work)
+    for (pool, salt) in [(&o, 0u32), (&small, 7777)] {
+        for seed in 0..(if thorough { 12u32 } else { 3 }) {
+            let mut x: u32 = 2463534242u32.wrapping_add(salt).wrapping_add(seed.wrapping_mul(2654435761));
+            v.push((0..LONG).map(|_| { x = x.wrapping_mul(1103515245).wrapping_add(12345); pool[((x >> 16) as usize) % pool.len()] }).collect());
+        }
+    }
+    (o, v)
+}
+
+pub struct StOut { pub alphabet: String, /// file -> (signature of the expected digest, signature of the digest loaded on a fresh thread)
+    pub files: BTreeMap<String, (String, String)> }
+
+/// The whole third family on this build; `sizes`, `here`, `repeats` as in `limits`. `only`: restrict the long-lived pools
+/// to the one of this size (0: the load outside of any pool), for replays.
+pub fn streams(thorough: bool, sizes: &[usize], here: &str, repeats: usize, only: Option<usize>, rep: &mut Report) -> StOut {
+    set_order(usize::MAX);
+    let workers = 8;
+    let t0 = std::time::Instant::now();
+    let lap = |what: &str| if std::env::var("LOPDF_VERIF_C08_TIMES").is_ok() { eprintln!("c08 third family, {}: {:.1} s", what, t0.elapsed().as_secs_f64()); };
+    let (o, files) = st_files(thorough);
+    let mut out = StOut { alphabet: stfile_name(&o), files: BTreeMap::new() };
+    let refs = Refs::new(thorough);
+    // every stream alone at the positions of the short files
+    fan(workers, o.len() * 3, rep, &|i, rep: &mut Report| { refs.get(&o[i / 3], i % 3, rep); None::<()> });
+    // one fresh thread loads the file twice
+    let fresh = fan(workers, files.len(), rep, &|i, rep: &mut Report| {
+        let f = &files[i];
+        let name = stfile_name(f);
+        let bytes = build_stream_file(&whole(f));
+        rep.case(true);
+        let (d1, d2) = on_fresh_thread(|| (load3(&bytes), load3(&bytes)));
+        let d = match d1 {
+            Err(p) => { rep.fail("no-panic", format!("[{}] on a fresh thread: {}", short3(&name), p), stream_input(f, json!("fresh"), "no-panic", thorough), p.clone()); return None; }
+            Ok(d) if !d.starts_with("version=") => { rep.fail("generated-file-loads", format!("[{}] the file does not load: {}", short3(&name), d), stream_input(f, json!("fresh"), "generated-file-loads", thorough), d.clone()); return None; }
+            Ok(d) => d,
+        };
+        let want = refs.expected(&d, f, rep)?;
+        if d != want { let diff = stream_diff(&d, &want, f); rep.fail(OB_ALONE, format!("[{}] {}: {}", short3(&name), WHAT3_FRESH, diff), stream_input(f, json!("fresh"), OB_ALONE, thorough), diff.clone()); }
+        // the same bytes once more: the same document as the first time
+        judge3(rep, OB_HISTORY3, f, d2, &d, WHAT3_TWICE, json!("fresh"), thorough);
+        let sigs = (signature3(&want, f.len()), signature3(&d, f.len()));
+        // the long-lived pools get the files of one stream and the long ones (thorough: and the files of 2 streams)
+        Some((sigs, if f.len() == 1 || f.len() > 3 || (thorough && f.len() == 2) { Some(want) } else { None }))
+    });
+    lap("fresh threads done");
+    let mut kept: Vec<(usize, String)> = vec![];
+    for (i, (sigs, w)) in fresh { out.files.insert(stfile_name(&files[i]), sigs); if let Some(w) = w { kept.push((i, w)); } }
+    let single: std::collections::HashMap<St, &String> = kept.iter().filter(|(i, _)| files[*i].len() == 1).map(|(i, w)| (files[*i][0], w)).collect();
+    let o: Vec<St> = o.iter().filter(|s| single.contains_key(s)).cloned().collect();
+    // pools that live through the whole enumeration
+    let tour = euler_tour(o.len());
+    let mut labels: Vec<(String, usize)> = vec![(here.to_string(), 0)];
+    for t in sizes { labels.push((format!("a long-lived pool of {} threads", t), *t)); }
+    if let Some(t) = only { labels.retain(|l| l.1 == t); }
+    fan(labels.len(), labels.len(), rep, &|p, rep: &mut Report| {
+        let (label, t) = &labels[p];
+        let pool = if *t == 0 { None } else { Some(big_pool(*t)) };
+        let mut step = 0usize;
+        for (i, want) in &kept {
+            let bytes = build_stream_file(&whole(&files[*i]));
+            judge3(rep, OB_HISTORY3, &files[*i], load3_on(&pool, &bytes), want, &format!("{} ({}, after {} earlier loads of this family there)", WHAT3_WALK, label, step), json!({"walk": t}), thorough);
+            step += 1;
+        }
+        let mut before: Option<St> = None;
+        for k in &tour {
+            let s = o[*k];
+            let bytes = build_stream_file(&[Some(s)]);
+            let what = format!("{} ({}, load number {} there{})", WHAT3_WALK, label, step, before.map(|b| format!(", right after {}", st_name(&b))).unwrap_or_default());
+            judge3(rep, OB_HISTORY3, &[s], load3_on(&pool, &bytes), single[&s], &what, json!({"walk": t}), thorough);
+            step += 1; before = Some(s);
+        }
+        None::<()>
+    });
+    lap("long-lived pools done");
+    if only.is_some() { return out; }
+    // real splits of the long files on fresh pools of every size
+    for (i, want) in kept.iter().filter(|(i, _)| files[*i].len() > 3) {
+        let bytes = build_stream_file(&whole(&files[*i]));
+        for t in sizes {
+            let pool = big_pool(*t);
+            for r in 0..repeats { if !judge3(rep, OB_POOLS, &files[*i], pool.install(|| load3(&bytes)), want, &format!("{} (load number {} on a pool of {} threads)", WHAT3_POOLS, r, t), json!({"threads": t, "repeats": repeats}), thorough) { break; } }
+        }
+    }
+    lap("fresh pools done");
+    out
+}
+
+/// the third family on this (parallel) build, and the comparison with the sequential build
+fn check_streams(thorough: bool, seq: impl FnOnce() -> Value, repeats: usize, rep: &mut Report) {
+    let out = streams(thorough, &[1, 2, 3, 4, 8, 16], "the global pool", repeats, None, rep);
+    let seq = &seq();
+    const OB: &str = "equals-sequential-build";
+    let seq_alphabet = seq.get("stream-alphabet").and_then(|x| x.as_str()).unwrap_or("(none)");
+    if seq_alphabet != out.alphabet {
+        rep.fail(OB, format!("the sequential build ran the third family over another alphabet of streams: {}", seq_alphabet.chars().take(200).collect::<String>()), json!({"streams": "", "at": "seq", "obligation": OB, "tier": if thorough { "thorough" } else { "quick" }}), seq_alphabet.chars().take(200).collect());
+    } else {
+        for (name, (want, _)) in &out.files {
+            rep.case(true);
+            let got = seq.get(format!("S:{}", name)).and_then(|x| x.as_str()).unwrap_or("(no digest)");
+            if got != want { let f = stfile_from(name).unwrap_or_default(); rep.fail(OB, format!("[{}] the sequential build loads another document on a fresh thread (hash:objects of the streams): it gets {}, expected is {}", short3(name), got, want), stream_input(&f, json!("seq"), OB, thorough), got.to_string()); }
+        }
+    }
+    check_seq_failures(seq, "stream-failures", rep);
+}
+
+fn replay_streams(v: &Value) -> Result<(), String> {
+    let thorough = v["tier"].as_str() == Some("thorough");
+    let obligation = v["obligation"].as_str().unwrap_or("").to_string();
+    let mut rep = Report::new("replay", false);
+    let verdict = |rep: &Report| match rep.failures.iter().find(|x| x.obligation == obligation && x.input["streams"] == v["streams"] && x.input["at"] == v["at"]).or(rep.failures.iter().find(|x| x.obligation == obligation)).or(rep.failures.first()) { None => Ok(()), Some(x) => Err(format!("{}: {}", x.obligation, x.detail)) };
+    set_order(usize::MAX);
+    if v["build"].as_str() == Some("sequential") {
+        let seq = seq_digests_part(thorough, "streams")?;
+        check_seq_failures(&seq, "stream-failures", &mut rep);
+        return verdict(&rep);
+    }
+    let f = stfile_from(v["streams"].as_str().unwrap_or("")).unwrap_or_default();
+    let at = &v["at"];
+    let refs = Refs::new(thorough);
+    if at.as_str() == Some("alone") {
+        if let Some(s) = f.first() { refs.get(s, v["position"].as_u64().unwrap_or(0) as usize, &mut rep); }
+        return verdict(&rep);
+    }
+    let bytes = build_stream_file(&whole(&f));
+    if at.as_str() == Some("fresh") && !f.is_empty() {
+        let (d1, d2) = on_fresh_thread(|| (load3(&bytes), load3(&bytes)));
+        let d = d1?;
+        let want = refs.expected(&d, &f, &mut rep).ok_or("a stream of the file does not load when it is alone")?;
+        judge3(&mut rep, OB_ALONE, &f, Ok(d.clone()), &want, WHAT3_FRESH, json!("fresh"), thorough);
+        judge3(&mut rep, OB_HISTORY3, &f, d2, &d, WHAT3_TWICE, json!("fresh"), thorough);
+        return verdict(&rep);
+    }
+    if let (Some(t), false) = (at.get("threads").and_then(|x| x.as_u64()), f.is_empty()) {
+        let d = load_fresh3(&bytes)?;
+        let want = refs.expected(&d, &f, &mut rep).ok_or("a stream of the file does not load when it is alone")?;
+        let pool = big_pool(t as usize);
+        for r in 0..40 { if !judge3(&mut rep, &obligation, &f, pool.install(|| load3(&bytes)), &want, &format!("{} (load number {} on a pool of {} threads)", WHAT3_POOLS, r, t), at.clone(), thorough) { break; } }
+        return verdict(&rep);
+    }
+    if let Some(t) = at.get("walk").and_then(|x| x.as_u64()) {
+        // the same long-lived pool through the same enumeration
+        let mut rep = Report::new("replay", false);
+        streams(thorough, &[1, 2, 3, 4, 8, 16], "the global pool", 1, Some(t as usize), &mut rep);
+        return verdict(&rep);
+    }
+    // the comparison with the sequential build: the whole family again
+    let seq = seq_digests_part(thorough, "streams")?;
+    let mut rep = Report::new("replay", false);
+    check_streams(thorough, move || seq, if thorough { 25 } else { 3 }, &mut rep);
+    verdict(&rep)
+}
+
 pub fn run(thorough: bool) -> Report {
-    let mut rep = Report::new("files with k = 1..4 (thorough 6) object streams; one object number present in every stream with a different value and used as the /Length of a stream, its cross-reference entry designating each container in turn / free / absent / an ordinary object / a container that does not list it; an object listed twice in one index; zero-length and indirect-length streams; wide files (up to 8, thorough 16, containers x 300 index entries over a pool of few numbers). Per file: all k! merge orders through hook H1 (capped at 720), 6 pool sizes {1,2,3,4,8,16} x 3 (thorough 25) repeated loads, all compared with the --no-default-features build of the same harness. SECOND FAMILY (objects at a parser limit x history of the parsing threads): object alphabet O = {arrays, dictionaries, arrays and dictionaries alternating, parentheses in a literal string} x {ordinary object, member of an object stream} x nesting depth {2, A-1, A, A+1, A+6}, A = the deepest nesting that loads when the object is alone in a file (probed over 20..=112 on fresh threads; 40 objects); files = all sequences of 1 and 2 (thorough: and 3) objects of O, plus long files of 64 objects (A+1 and A alternating per kind and position: 8; drawn from O: 3, thorough 12). Oracle: every object fares in every load exactly as it does alone in a file on a fresh thread (and a loaded object equals the object written), the rest of the document is constant. Loads per file: a fresh pool of 1 thread (one worker parses everything in file order); long-lived pools of {1,2,3,4,8,16} threads and the global pool, which load all files of up to 2 objects and the long ones in turn and then a closed walk over the single-object files in which every ordered pair occurs back to back (driven concurrently; their history is the whole enumeration); long files on fresh pools of {1,2,3,4,8,16} threads x 3 (thorough 25) loads; every sequence of 2 (thorough 3) single-object files on one fresh thread; the same family run by the sequential build on itself (fresh threads, one long-lived worker, a plain thread) and its fresh-thread documents compared with the expected ones by hash", false);
-    // the sequential build works on the second family while this build works on the first
+    let mut rep = Report::new("files with k = 1..4 (thorough 6) object streams; one object number present in every stream with a different value and used as the /Length of a stream, its cross-reference entry designating each container in turn / free / absent / an ordinary object / a container that does not list it; an object listed twice in one index; zero-length and indirect-length streams; wide files (up to 8, thorough 16, containers x 300 index entries over a pool of few numbers). Per file: all k! merge orders through hook H1 (capped at 720), 6 pool sizes {1,2,3,4,8,16} x 3 (thorough 25) repeated loads, all compared with the --no-default-features build of the same harness. SECOND FAMILY (objects at a parser limit x history of the parsing threads): object alphabet O = {arrays, dictionaries, arrays and dictionaries alternating, parentheses in a literal string} x {ordinary object, member of an object stream} x nesting depth {2, A-1, A, A+1, A+6}, A = the deepest nesting that loads when the object is alone in a file (probed over 20..=112 on fresh threads; 40 objects); files = all sequences of 1 and 2 (thorough: and 3) objects of O, plus long files of 64 objects (A+1 and A alternating per kind and position: 8; drawn from O: 3, thorough 12). Oracle: every object fares in every load exactly as it does alone in a file on a fresh thread (and a loaded object equals the object written), the rest of the document is constant. Loads per file: a fresh pool of 1 thread (one worker parses everything in file order); long-lived pools of {1,2,3,4,8,16} threads and the global pool, which load all files of up to 2 objects and the long ones in turn and then a closed walk over the single-object files in which every ordered pair occurs back to back (driven concurrently; their history is the whole enumeration); long files on fresh pools of {1,2,3,4,8,16} threads x 3 (thorough 25) loads; every sequence of 2 (thorough 3) single-object files on one fresh thread; the same family run by the sequential build on itself (fresh threads, one long-lived worker, a plain thread) and its fresh-thread documents compared with the expected ones by hash. THIRD FAMILY (stream data x how the length is stated x neighbours in the file x history): stream alphabet T = {object stream with 3 members, ordinary stream} x data {not encoded, FlateDecode healthy, FlateDecode with a wrong Adler-32, FlateDecode with a broken stored-block header at 10/16 of the data, FlateDecode cut off at 10/16} x decoded length {2^7, 2^16} bytes (thorough {2^7, 2^10, 2^13, 2^16, 2^19}) x /Length {direct, a reference to an integer object of its own, a reference to the one integer object of the file that every stream of the same encoded length shares} = 60 (thorough 150) streams, the zlib data assembled by hand from 16 stored blocks; files = all sequences of 1 and 2 streams of T (3660; thorough 22650, and all 27000 sequences of 3 of the 30 streams of 128 bytes), plus long files of 64 streams (drawn from T: 3, thorough 12; drawn from the 128-byte streams of T: 3, thorough 12). Oracle: every object of stream j (the stream, its 3 members, its length object) is in every load exactly what it is when the other streams are left out of the file and the thread is fresh; a stream that is not decoded while loading holds the bytes written, the members of a healthy object stream are the objects written; catalog, page tree root, shared length objects, trailer and maximum id are constant. Loads per file: twice in a row on one fresh thread (pool of 1); long-lived pools of {1,2,3,4,8,16} threads and the global pool, which load all single-stream files and the long ones (thorough: and all files of 2 streams) in turn and then a closed walk over the single-stream files in which every ordered pair occurs back to back (driven concurrently); long files on fresh pools of {1,2,3,4,8,16} threads x 3 (thorough 25) loads; the same family run by the sequential build on itself (fresh threads, one long-lived worker, a plain thread) and its fresh-thread documents compared with the expected ones by hash. The second and the third family leave the merge-order hook alone", false);
+    let t0 = std::time::Instant::now();
+    let times = std::env::var("LOPDF_VERIF_C08_TIMES").is_ok();
+    // the sequential build works on the second and third family while this build works on the first
     let seq_limits = std::thread::spawn(move || seq_digests_part(thorough, "limits"));
+    let seq_streams = std::thread::spawn(move || seq_digests_part(thorough, "streams"));
     let seq = match seq_digests_part(thorough, "specs") { Ok(v) => v, Err(e) => { eprintln!("c08: {}", e); std::process::exit(3); } };
     for s in specs(thorough) {
         let Some(sd) = seq.get(spec_name(&s)).and_then(|x| x.as_str()) else { eprintln!("c08: no sequential digest for {}", spec_name(&s)); std::process::exit(3); };
@@ -693,7 +1160,17 @@ pub fn run(thorough: bool) -> Report {
     }
     set_order(usize::MAX);
     let seq = match seq_limits.join().unwrap_or_else(|_| Err("the thread waiting for the sequential build died".into())) { Ok(v) => v, Err(e) => { eprintln!("c08: {}", e); std::process::exit(3); } };
-    check_limits(thorough, &seq, if thorough { 25 } else { 3 }, &mut rep);
+    if times { eprintln!("c08 first family: {:.1} s", t0.elapsed().as_secs_f64()); }
+    // the sequential build has been at the third family since the start; its answer is needed last
+    let seq3 = move || match seq_streams.join().unwrap_or_else(|_| Err("the thread waiting for the sequential build died".into())) { Ok(v) => v, Err(e) => { eprintln!("c08: {}", e); std::process::exit(3); } };
+    // the second and the third family leave the hook alone and run side by side
+    let repeats = if thorough { 25 } else { 3 };
+    let (r2, r3) = std::thread::scope(|sc| {
+        let h2 = sc.spawn(|| { let mut r = Report::new("part", false); check_limits(thorough, &seq, repeats, &mut r); if times { eprintln!("c08 second family: {:.1} s", t0.elapsed().as_secs_f64()); } r });
+        let h3 = sc.spawn(move || { let mut r = Report::new("part", false); check_streams(thorough, seq3, repeats, &mut r); if times { eprintln!("c08 third family: {:.1} s", t0.elapsed().as_secs_f64()); } r });
+        (h2.join().expect("second family"), h3.join().expect("third family"))
+    });
+    rep.merge(r2); rep.merge(r3);
     let s0 = Spec { k: 3, mode: Mode::Free, wide: 0 };
     rep.sample(format!("{}: {}", spec_name(&s0), String::from_utf8_lossy(&build_file(&s0)).chars().filter(|c| c.is_ascii() && !c.is_control() || *c == '\n').skip(520).take(300).collect::<String>()));
     rep
@@ -701,8 +1178,9 @@ pub fn run(thorough: bool) -> Report {
 
 pub fn replay(v: &Value) -> Result<(), String> {
     if v.get("limit").is_some() { return replay_limit(v); }
+    if v.get("streams").is_some() { return replay_streams(v); }
     let s = spec_from(&v["spec"]);
-    let seq = seq_digests(true).or_else(|_| seq_digests(false))?;
+    let seq = seq_digests_part(true, "specs").or_else(|_| seq_digests_part(false, "specs"))?;
     let sd = seq.get(spec_name(&s)).and_then(|x| x.as_str()).ok_or("no sequential digest for this file")?.to_string();
     let mut rep = Report::new("replay", false);
     check_spec(&s, &sd, 720, 10, &mut rep);
